@@ -121,4 +121,114 @@ theorem runOps_appends (m : OpenMode) (rs : List Rec) (w : BufFile) (hq : w.buf 
 
 end FileAppender
 
+
+/-! ### several handles, foreign appends, failing encoders -/
+
+namespace BufFile
+
+theorem foldl_writeAll_grows (r : List Bytes) (w : BufFile) :
+    ∃ p, (r.foldl writeAll w).disk = w.disk ++ p ∧ p ++ (r.foldl writeAll w).buf = w.buf ++ r.flatten := by
+  induction r generalizing w with
+  | nil => exact ⟨[], by simp⟩
+  | cons c cs ih =>
+    obtain ⟨p1, h1, h2⟩ := writeAll_grows w c
+    obtain ⟨p2, h3, h4⟩ := ih (w.writeAll c)
+    refine ⟨p1 ++ p2, ?_, ?_⟩
+    · simp only [List.foldl_cons]
+      rw [h3, h1, List.append_assoc]
+    · simp only [List.foldl_cons, List.flatten_cons]
+      rw [List.append_assoc, h4, ← List.append_assoc, h2, List.append_assoc]
+
+end BufFile
+
+namespace Handles
+
+/-- all appenders are quiescent -/
+def Quiet (s : Handles) : Prop := ∀ b ∈ s.bufs, b = []
+
+theorem view_quiet (s : Handles) (k : Nat) (h : s.Quiet) : (s.view k).buf = [] := by
+  simp only [view]
+  cases hk : s.bufs[k]? with
+  | none => rfl
+  | some b => exact h b (List.mem_of_getElem? hk)
+
+theorem quiet_set (s : Handles) (k : Nat) (h : s.Quiet) : ∀ b ∈ s.bufs.set k [], b = [] := by
+  intro b hb
+  rcases List.mem_or_eq_of_mem_set hb with h1 | h1
+  · exact h b h1
+  · exact h1
+
+/-- the model's trace is the specification's for every history in which no failing encoder has
+written anything: appends through any appender, foreign appends, further appenders, restarts -/
+theorem trace_eq_fileTraceM (m : OpenMode) (ops : List MOp) (s : Handles) (hq : s.Quiet)
+    (hv : validOps s.bufs.length ops = true) (hnt : ∀ op ∈ ops, op.torn = false) :
+    trace m s ops = Spec.fileTraceM m s.file ops := by
+  induction ops generalizing s with
+  | nil => rfl
+  | cons op ops ih =>
+    have hnt' : ∀ o ∈ ops, o.torn = false := fun o ho => hnt o (List.mem_cons_of_mem _ ho)
+    have hop := hnt op (List.mem_cons_self ..)
+    cases op with
+    | append k r fa =>
+      simp only [validOps, Bool.and_eq_true, decide_eq_true_eq] at hv
+      have hvb := view_quiet s k hq
+      cases fa with
+      | none =>
+        have hfile : (applyOp m s (.append k r none)).file = s.file ++ encBytes r := by
+          have hvd : (s.view k).disk = s.file := rfl
+          simp [applyOp, hv.1, store, FileAppender.append_disk, hvb, hvd]
+        have hq' : (applyOp m s (.append k r none)).Quiet := by
+          simp only [applyOp, hv.1, if_true, store, FileAppender.append_buf]
+          exact quiet_set s k hq
+        have hlen : (applyOp m s (.append k r none)).bufs.length = s.bufs.length := by
+          simp [applyOp, hv.1, store]
+        simp only [trace, Spec.fileTraceM]
+        rw [ih _ hq' (by rw [hlen]; exact hv.2) hnt', hfile]
+      | some n =>
+        simp only [MOp.torn, Bool.not_eq_false', List.isEmpty_iff] at hop
+        obtain ⟨p, h1, h2⟩ := BufFile.foldl_writeAll_grows (r.take n) (s.view k)
+        rw [hvb, hop] at h2
+        simp only [List.append_nil, List.nil_append, List.append_eq_nil_iff] at h2
+        have hfile : (applyOp m s (.append k r (some n))).file = s.file := by
+          simp only [applyOp, hv.1, if_true, store, FileAppender.encode]
+          rw [h1, h2.1]
+          simp [view]
+        have hq' : (applyOp m s (.append k r (some n))).Quiet := by
+          simp only [applyOp, hv.1, if_true, store, FileAppender.encode, h2.2]
+          exact quiet_set s k hq
+        have hlen : (applyOp m s (.append k r (some n))).bufs.length = s.bufs.length := by
+          simp [applyOp, hv.1, store]
+        simp only [trace, Spec.fileTraceM]
+        rw [ih _ hq' (by rw [hlen]; exact hv.2) hnt', hfile]
+    | foreign x =>
+      simp only [validOps] at hv
+      simp only [trace, Spec.fileTraceM]
+      rw [ih _ (by simpa [applyOp, Quiet] using hq) (by simpa [applyOp] using hv) hnt']
+      rfl
+    | build =>
+      simp only [validOps] at hv
+      have hq' : (applyOp m s .build).Quiet := by
+        intro b hb
+        simp only [applyOp, List.mem_append, List.mem_singleton] at hb
+        rcases hb with hb | hb
+        · exact hq b hb
+        · exact hb
+      simp only [trace, Spec.fileTraceM]
+      rw [ih _ hq' (by simpa [applyOp] using hv) hnt']
+      cases m <;> rfl
+    | restart k =>
+      simp only [validOps, Bool.and_eq_true, decide_eq_true_eq] at hv
+      have hvb := view_quiet s k hq
+      have hq' : (applyOp m s (.restart k)).Quiet := by
+        simp only [applyOp, hv.1, if_true]
+        exact quiet_set s k hq
+      have hlen : (applyOp m s (.restart k)).bufs.length = s.bufs.length := by
+        simp [applyOp, hv.1]
+      have hvd : (s.view k).disk = s.file := rfl
+      simp only [trace, Spec.fileTraceM]
+      rw [ih _ hq' (by rw [hlen]; exact hv.2) hnt']
+      cases m <;> simp [applyOp, hv.1, openContent, hvb, hvd]
+
+end Handles
+
 end Log4rs.Rolling
